@@ -1,4 +1,5 @@
 import CalVerif.Spec.XlsbEnc
+import CalVerif.Lemmas.Range
 /-! Helper lemmas for C03: little-endian fields, the cell payload layout as the reader sees it, the arms of
     `Xlsb.interpret` on encoder output. Property theorems are in `Props/C03.lean`. -/
 
@@ -43,30 +44,12 @@ theorem wideStr_wideBytes (us : List Nat) (hl : us.length < 4294967296) (h : ∀
     rw [List.take_left' (by rw [unitsBytes_length]; omega)]
   rw [this, units_unitsBytes us h]
 
-/-- size constraints of the fields of a cell record -/
-def Content.WF : Content → Prop
-  | .blank => True
-  | .rk w => w < 4294967296
-  | .err c => c < 256
-  | .bool b => b < 256
-  | .real bits => bits < 18446744073709551616
-  | .str us => us.length < 4294967296 ∧ ∀ u ∈ us, u < 65536
-  | .isst i => i < 4294967296
-
-def CellRec.WF (c : CellRec) : Prop := c.col < 4294967296 ∧ c.content.WF
-
-def CellRec.tail (c : CellRec) : Bytes :=
-  match c.fmla with
-  | some f => if c.content.hasFmla then f else []
-  | none => []
-
 /-- shape of every cell payload: 4 column bytes, 3 style bytes, a zero, then the body -/
 theorem payload_shape (c : CellRec) : c.payload =
     UInt8.ofNat (c.col % 256) :: UInt8.ofNat (c.col / 256 % 256) :: UInt8.ofNat (c.col / 65536 % 256) ::
     UInt8.ofNat (c.col / 16777216 % 256) :: UInt8.ofNat (c.style % 256) :: UInt8.ofNat (c.style / 256 % 256) ::
     UInt8.ofNat (c.style / 65536 % 256) :: 0 :: (c.content.bytes ++ c.tail) := by
   simp only [CellRec.payload, cellHead, le32, CellRec.tail, List.cons_append, List.nil_append]
-  rfl
 
 /-- the reader's view of a record with the cell layout -/
 theorem cellFormat_shape (fmts : List Nat) (h0 h1 h2 h3 z : UInt8) (style : Nat) (body : Bytes) :
@@ -288,12 +271,6 @@ theorem interpret_stop (ctx : Ctx) (p : Bytes) : interpret ctx 0x92 p = .stop :=
     if_neg (by omega), if_neg (by omega), if_pos rfl]
 
 
-/-- what the round-trip theorems require of an item of the sheet data -/
-def Item.OK (ctx : Ctx) : Item → Prop
-  | .row r tail => r ≤ 0x100000 ∧ 4 + tail.length < 268435456
-  | .cell c => c.WF ∧ c.payload.length < 268435456 ∧ (c.content = .blank ∨ (valueOf ctx c.style c.content).isSome)
-  | .raw id p => id < 16384 ∧ interpretedId id = false ∧ p.length < 268435456
-
 theorem readCells_data (ctx : Ctx) (endWide : Bool) (endLenW : Nat) (post : Bytes) :
     ∀ (data : List Framed) (f row : Nat), (∀ d ∈ data, d.item.OK ctx) → data.length < f →
       readCells ctx f (encodeItems data ++ (frame 0x92 [] endWide endLenW ++ post)) row
@@ -337,5 +314,315 @@ theorem readCells_data (ctx : Ctx) (endWide : Bool) (endLenW : Nat) (post : Byte
         rw [interpret_cell ctx c hwf v hv]
         simp only [specCells, hv]
         rw [readCells_data ctx endWide endLenW post rest f' row hrest hf']
+
+/-! ### the sheet prologue: `next_skip_blocks`, `XlsbCellsReader::new` -/
+
+theorem Framed.bytes_eq (f : Framed) : f.bytes = frame f.id f.pay f.wide f.lenW := rfl
+
+theorem fillBuffer_enc (buf p : Bytes) (hp : p.length < 268435456) (w : Nat) (rest : Bytes) :
+    fillBuffer buf (encLen p.length w ++ (p ++ rest)) = .ok (p.length, fillBuf buf p, rest) := by
+  unfold fillBuffer
+  rw [readLen_encLen _ _ hp]
+  simp only
+  rw [if_neg (by simp), List.take_left' rfl, List.drop_left' rfl]
+  rfl
+
+theorem frame_eq (t : Nat) (p : Bytes) (wide : Bool) (w : Nat) (rest : Bytes) :
+    frame t p wide w ++ rest = encId t wide ++ (encLen p.length w ++ (p ++ rest)) := by
+  unfold frame; simp only [List.append_assoc]
+
+theorem skipToEnd_enc (e : Nat) (he : e < 16384) (ewide : Bool) (rest : Bytes) :
+    ∀ (inner : List Framed) (f : Nat) (buf : Bytes), (∀ x ∈ inner, x.Fits ∧ x.id ≠ e) → inner.length < f →
+      skipToEnd e f buf (encodeItems inner ++ (encId e ewide ++ rest)) = .ok (bufAfter buf inner, rest)
+  | [], f, buf, _, hf => by
+    obtain ⟨f', rfl⟩ : ∃ f', f = f' + 1 := ⟨f - 1, by simp at hf; omega⟩
+    simp only [encodeItems, List.nil_append, skipToEnd, readType_encId e he, if_true, bufAfter, List.foldl_nil]
+  | x :: inner, f, buf, h, hf => by
+    obtain ⟨f', rfl⟩ : ∃ f', f = f' + 1 := ⟨f - 1, by simp at hf; omega⟩
+    obtain ⟨⟨hid, hpl⟩, hne⟩ := h x (List.mem_cons_self ..)
+    simp only [encodeItems, List.append_assoc, Framed.bytes_eq]
+    rw [frame_eq, skipToEnd, readType_encId _ hid]
+    simp only
+    rw [if_neg hne, fillBuffer_enc _ _ hpl]
+    simp only
+    rw [skipToEnd_enc e he ewide rest inner f' _ (fun y hy => h y (List.mem_cons_of_mem _ hy)) (by simp at hf; omega)]
+    rfl
+
+
+theorem nextSkipBlocks_segs (target : Nat) (ht : target < 16384) (bounds : List (Nat × Option Nat))
+    (tp : Bytes) (htp : tp.length < 268435456) (twide : Bool) (tw : Nat) (rest : Bytes) :
+    ∀ (segs : List Seg) (f : Nat) (buf : Bytes), (∀ s ∈ segs, s.OK target bounds) → segsSize segs < f →
+      ∃ buf', nextSkipBlocks target bounds f buf (encodeSegs segs ++ (frame target tp twide tw ++ rest))
+        = .ok (tp.length, fillBuf buf' tp, rest)
+  | [], f, buf, _, hf => by
+    obtain ⟨f', rfl⟩ : ∃ f', f = f' + 1 := ⟨f - 1, by simp [segsSize] at hf; omega⟩
+    refine ⟨buf, ?_⟩
+    simp only [encodeSegs, List.nil_append]
+    rw [frame_eq, nextSkipBlocks, readType_encId _ ht]
+    simp only
+    rw [fillBuffer_enc _ _ htp]
+    simp only [if_true]
+  | .one r :: segs, f, buf, h, hf => by
+    obtain ⟨f', rfl⟩ : ∃ f', f = f' + 1 := ⟨f - 1, by simp [segsSize, Seg.size] at hf; omega⟩
+    obtain ⟨⟨hid, hpl⟩, hne, hb⟩ := h (.one r) (List.mem_cons_self ..)
+    obtain ⟨buf', hrec⟩ := nextSkipBlocks_segs target ht bounds tp htp twide tw rest segs f' (fillBuf buf r.pay)
+      (fun y hy => h y (List.mem_cons_of_mem _ hy)) (by simp [segsSize, Seg.size] at hf; omega)
+    refine ⟨buf', ?_⟩
+    simp only [encodeSegs, Seg.bytes, List.append_assoc, Framed.bytes_eq]
+    rw [frame_eq, nextSkipBlocks, readType_encId _ hid]
+    simp only
+    rw [fillBuffer_enc _ _ hpl]
+    simp only
+    rw [if_neg hne, hb]
+    exact hrec
+  | .block s inner e :: segs, f, buf, h, hf => by
+    obtain ⟨f', rfl⟩ : ∃ f', f = f' + 1 := ⟨f - 1, by simp [segsSize, Seg.size] at hf; omega⟩
+    obtain ⟨⟨hid, hpl⟩, hne, hb, ⟨heid, hepl⟩, hin⟩ := h (.block s inner e) (List.mem_cons_self ..)
+    obtain ⟨buf', hrec⟩ := nextSkipBlocks_segs target ht bounds tp htp twide tw rest segs f'
+      (fillBuf (bufAfter (fillBuf buf s.pay) inner) e.pay)
+      (fun y hy => h y (List.mem_cons_of_mem _ hy)) (by simp [segsSize, Seg.size] at hf; omega)
+    refine ⟨buf', ?_⟩
+    simp only [encodeSegs, Seg.bytes, List.append_assoc, Framed.bytes_eq]
+    rw [frame_eq, nextSkipBlocks, readType_encId _ hid]
+    simp only
+    rw [fillBuffer_enc _ _ hpl]
+    simp only
+    rw [if_neg hne, hb]
+    simp only
+    rw [frame_eq e.id, skipToEnd_enc e.id heid e.wide _ inner f' _ hin (by simp [segsSize, Seg.size] at hf; omega)]
+    simp only
+    rw [fillBuffer_enc _ _ hepl]
+    exact hrec
+
+
+theorem encLenW_length : ∀ (w n : Nat), (encLenW w n).length = w
+  | 0, _ => rfl
+  | 1, _ => rfl
+  | w+2, n => by simp only [encLenW, List.length_cons, encLenW_length (w+1)]
+
+theorem lenWidth_pos (n w : Nat) : 1 ≤ lenWidth n w := by
+  have hm : 1 ≤ minLenWidth n := by
+    unfold minLenWidth; split; omega; split; omega; split <;> omega
+  unfold lenWidth; split <;> omega
+
+theorem frame_length_ge (t : Nat) (p : Bytes) (wide : Bool) (w : Nat) : 2 ≤ (frame t p wide w).length := by
+  have h1 : 1 ≤ (encId t wide).length := by unfold encId; split <;> simp
+  have h2 := lenWidth_pos p.length w
+  simp only [frame, encLen, List.length_append, encLenW_length]; omega
+
+theorem encodeItems_length_ge : ∀ (l : List Framed), 2 * l.length ≤ (encodeItems l).length
+  | [] => by simp [encodeItems]
+  | x :: l => by
+    have := encodeItems_length_ge l
+    have := frame_length_ge x.id x.pay x.wide x.lenW
+    simp only [encodeItems, List.length_append, List.length_cons, Framed.bytes_eq]; omega
+
+theorem encodeSegs_length_ge : ∀ (l : List Seg), 2 * segsSize l ≤ (encodeSegs l).length
+  | [] => by simp [encodeSegs, segsSize]
+  | .one r :: l => by
+    have := encodeSegs_length_ge l
+    have := frame_length_ge r.id r.pay r.wide r.lenW
+    simp only [encodeSegs, segsSize, Seg.size, Seg.bytes, List.length_append, Framed.bytes_eq]; omega
+  | .block s inner e :: l => by
+    have := encodeSegs_length_ge l
+    have := frame_length_ge s.id s.pay s.wide s.lenW
+    have := frame_length_ge e.id e.pay e.wide e.lenW
+    have := encodeItems_length_ge inner
+    simp only [encodeSegs, segsSize, Seg.size, Seg.bytes, List.length_append, Framed.bytes_eq]; omega
+
+theorem u32le_append (p t : Bytes) (h : 4 ≤ p.length) : u32le (p ++ t) = u32le p := by
+  unfold u32le
+  simp only [List.getD_eq_getElem?_getD]
+  rw [List.getElem?_append_left (by omega), List.getElem?_append_left (by omega),
+    List.getElem?_append_left (by omega), List.getElem?_append_left (by omega)]
+
+theorem parseDimensions_fillBuf (buf p : Bytes) (h : 16 ≤ p.length) :
+    parseDimensions (fillBuf buf p) = parseDimensions p := by
+  unfold fillBuf
+  split
+  · rfl
+  · unfold parseDimensions
+    rw [u32le_append _ _ (by omega)]
+    rw [List.drop_append_of_le_length (by omega), u32le_append _ _ (by simp; omega)]
+    rw [List.drop_append_of_le_length (by omega), u32le_append _ _ (by simp; omega)]
+    rw [List.drop_append_of_le_length (by omega), u32le_append _ _ (by simp; omega)]
+
+theorem fillBuf_length_ge (buf p : Bytes) : p.length ≤ (fillBuf buf p).length := by
+  unfold fillBuf; split
+  · exact Nat.le_refl _
+  · simp
+
+/-- `XlsbCellsReader::new` on an encoded prologue: anything up to BrtWsDim, segments (records and skipped
+    blocks) up to BrtBeginSheetData; the reader is left on the first record of the sheet data -/
+theorem newReader_enc (pre1 pre2 : List Seg) (dims : Bytes) (dw : Bool) (dl : Nat) (bp : Bytes) (bw : Bool) (bl : Nat)
+    (rest : Bytes) (h1 : ∀ s ∈ pre1, s.OK 0x0094 bounds1) (h2 : ∀ s ∈ pre2, s.OK 0x0091 bounds2)
+    (hd : 16 ≤ dims.length ∧ dims.length < 268435456) (hb : bp.length < 268435456) :
+    newReader (encodeSegs pre1 ++ (frame 0x0094 dims dw dl ++ (encodeSegs pre2 ++ (frame 0x0091 bp bw bl ++ rest))))
+      = .ok (parseDimensions dims, rest) := by
+  unfold newReader
+  have hl1 := encodeSegs_length_ge pre1
+  have hl2 := encodeSegs_length_ge pre2
+  obtain ⟨b1, e1⟩ := nextSkipBlocks_segs 0x0094 (by omega) bounds1 dims hd.2 dw dl
+    (encodeSegs pre2 ++ (frame 0x0091 bp bw bl ++ rest)) pre1
+    ((encodeSegs pre1 ++ (frame 0x0094 dims dw dl ++ (encodeSegs pre2 ++ (frame 0x0091 bp bw bl ++ rest)))).length + 1) [] h1
+    (by simp only [List.length_append]; omega)
+  rw [show ([(0x0081, none), (0x0093, none)] : List (Nat × Option Nat)) = bounds1 from rfl, e1]
+  simp only
+  have hlen := fillBuf_length_ge b1 dims
+  rw [if_neg (by omega)]
+  obtain ⟨b2, e2⟩ := nextSkipBlocks_segs 0x0091 (by omega) bounds2 bp hb bw bl rest pre2
+    ((encodeSegs pre1 ++ (frame 0x0094 dims dw dl ++ (encodeSegs pre2 ++ (frame 0x0091 bp bw bl ++ rest)))).length + 1)
+    (fillBuf b1 dims) h2 (by simp only [List.length_append]; omega)
+  rw [show ([(0x0085, some 0x0086), (0x0025, some 0x0026), (0x01E5, none), (0x0186, some 0x0187)] : List (Nat × Option Nat)) = bounds2 from rfl, e2]
+  simp only
+  rw [parseDimensions_fillBuf _ _ hd.1]
+
+/-! ### the whole sheet part -/
+
+theorem styled_ne_empty (ctx : Ctx) (style bits : Nat) : styled ctx style bits ≠ .empty := by
+  unfold styled; split <;> simp
+
+theorem valueOf_ne_empty (ctx : Ctx) (style : Nat) (c : Content) (v : Val) (h : valueOf ctx style c = some v) :
+    v ≠ .empty := by
+  cases c with
+  | blank => simp [valueOf] at h
+  | rk w =>
+    simp only [valueOf] at h
+    split at h
+    · split at h
+      · injection h with h; rw [← h]; exact styled_ne_empty _ _ _
+      · have hs := styled_ne_empty ctx style (i2f (rkIntSpec w))
+        split at h
+        · injection h with h; rw [← h]; simp
+        · injection h with h; rw [← h]; exact hs
+    · injection h with h; rw [← h]; exact styled_ne_empty _ _ _
+  | err c => simp only [valueOf] at h; split at h <;> simp at h; rw [← h]; simp
+  | bool b => simp only [valueOf] at h; injection h with h; rw [← h]; simp
+  | real bits => simp only [valueOf] at h; injection h with h; rw [← h]; exact styled_ne_empty _ _ _
+  | str us => simp only [valueOf] at h; injection h with h; rw [← h]; simp
+  | isst i =>
+    simp only [valueOf] at h
+    cases hs : ctx.strings[i]? with
+    | none => simp [hs] at h
+    | some s => simp [hs] at h; rw [← h]; simp
+
+theorem specCells_ne_empty (ctx : Ctx) : ∀ (items : List Item) (row : Nat), ∀ c ∈ specCells ctx items row, c.2.2 ≠ Val.empty
+  | [], _, c, h => by simp [specCells] at h
+  | .row r _ :: rest, _, c, h => specCells_ne_empty ctx rest r c (by simpa [specCells] using h)
+  | .raw _ _ :: rest, row, c, h => specCells_ne_empty ctx rest row c (by simpa [specCells] using h)
+  | .cell cr :: rest, row, c, h => by
+    simp only [specCells] at h
+    cases hv : valueOf ctx cr.style cr.content with
+    | none => rw [hv] at h; exact specCells_ne_empty ctx rest row c h
+    | some v =>
+      rw [hv] at h
+      rcases List.mem_cons.mp h with rfl | h'
+      · exact valueOf_ne_empty ctx _ _ v hv
+      · exact specCells_ne_empty ctx rest row c h'
+
+theorem decodeSheet_enc (ctx : Ctx) (pre1 pre2 : List Seg) (dims : Bytes) (dw : Bool) (dl : Nat) (bp : Bytes)
+    (bw : Bool) (bl : Nat) (data : List Framed) (ew : Bool) (el : Nat) (post : Bytes)
+    (h1 : ∀ s ∈ pre1, s.OK 0x0094 bounds1) (h2 : ∀ s ∈ pre2, s.OK 0x0091 bounds2)
+    (hd : 16 ≤ dims.length ∧ dims.length < 268435456) (hb : bp.length < 268435456)
+    (hok : ∀ d ∈ data, d.item.OK ctx) :
+    decodeSheet ctx (sheetBytes pre1 dims dw dl pre2 bp bw bl data ew el post)
+      = Range.fromSparse (specCells ctx (data.map (·.item)) 0) := by
+  unfold decodeSheet sheetBytes
+  rw [newReader_enc pre1 pre2 dims dw dl bp bw bl _ h1 h2 hd hb]
+  simp only [dimLen]
+  have hlen := encodeItems_length_ge data
+  rw [readCells_data ctx ew el post data _ 0 hok (by simp only [List.length_append]; omega)]
+  simp only
+  congr 1
+  rw [List.filter_eq_self]
+  intro c hc
+  simpa using specCells_ne_empty ctx _ _ c hc
+
+
+theorem sparsePre_of_gridSorted (S : List (Nat × Nat × Val)) (h : GridSorted S) : Range.sparsePre S := by
+  obtain ⟨hs, hg⟩ := h
+  cases S with
+  | nil => trivial
+  | cons c0 rest =>
+    have hlast : (c0 :: rest).getLast?.getD c0 ∈ c0 :: rest := by
+      rw [List.getLast?_eq_some_getLast (List.cons_ne_nil _ _)]; exact List.getLast_mem _
+    have hfirst : ∀ c ∈ c0 :: rest, c0.1 ≤ c.1 := by
+      intro c hc
+      rcases List.mem_cons.mp hc with rfl | hc'
+      · exact Nat.le_refl _
+      · exact (List.pairwise_cons.mp hs).1 c hc'
+    have hle : ∀ c ∈ c0 :: rest, c.1 ≤ ((c0 :: rest).getLast?.getD c0).1 := by
+      intro c hc
+      rw [List.getLast?_eq_some_getLast (List.cons_ne_nil _ _)]
+      simp only [Option.getD_some]
+      obtain ⟨i, hi, rfl⟩ := List.mem_iff_getElem.mp hc
+      rw [List.getLast_eq_getElem]
+      by_cases hlt : i = (c0 :: rest).length - 1
+      · subst hlt; exact Nat.le_refl _
+      · exact List.pairwise_iff_getElem.mp hs i ((c0 :: rest).length - 1) hi (by simp) (by omega)
+    refine ⟨fun c hc => ⟨hfirst c hc, hle c hc, ?_, ?_⟩, ?_, ?_⟩
+    · have := (hg c hc).1; unfold Range.U32; omega
+    · have := (hg c hc).2; unfold Range.U32; omega
+    · have := (hg _ hlast).1; unfold Range.U32; omega
+    · intro c hc c' hc'
+      have := (hg c' hc').2; unfold Range.U32; omega
+
+
+theorem gridSorted_le_last (S : List (Nat × Nat × Val)) (hne : S ≠ []) (h : GridSorted S) :
+    ∀ c ∈ S, c.1 ≤ (S.getLast hne).1 := by
+  intro c hc
+  obtain ⟨i, hi, rfl⟩ := List.mem_iff_getElem.mp hc
+  rw [List.getLast_eq_getElem]
+  by_cases hlt : i = S.length - 1
+  · subst hlt; exact Nat.le_refl _
+  · exact List.pairwise_iff_getElem.mp h.1 i (S.length - 1) hi (by omega) (by omega)
+
+/-! ### record lists, inserted records -/
+
+theorem recordsGo_cons (f : Nat) (bs : Bytes) (h : bs ≠ []) :
+    recordsGo (f + 1) bs =
+      match readRecord bs with
+      | .ok (t, p, rest) =>
+        match recordsGo f rest with
+        | .ok l => .ok ((t, p) :: l)
+        | .err e => .err e
+        | .panic s => .panic s
+        | .outOfFuel => .outOfFuel
+      | .err e => .err e
+      | .panic s => .panic s
+      | .outOfFuel => .outOfFuel := by
+  cases bs with
+  | nil => exact absurd rfl h
+  | cons b bs => rfl
+
+theorem recordsGo_enc : ∀ (l : List Framed) (f : Nat), (∀ x ∈ l, x.Fits) → l.length < f →
+    recordsGo f (encodeItems l) = .ok (l.map fun x => (x.id, x.pay))
+  | [], f, _, hf => by
+    obtain ⟨f', rfl⟩ : ∃ f', f = f' + 1 := ⟨f - 1, by simp at hf; omega⟩
+    rfl
+  | x :: l, f, h, hf => by
+    obtain ⟨f', rfl⟩ : ∃ f', f = f' + 1 := ⟨f - 1, by simp at hf; omega⟩
+    obtain ⟨hid, hpl⟩ := h x (List.mem_cons_self ..)
+    have hne : encodeItems (x :: l) ≠ [] := by
+      have := frame_length_ge x.id x.pay x.wide x.lenW
+      intro h0
+      have h1 := congrArg List.length h0
+      simp only [encodeItems, List.length_append, Framed.bytes_eq, List.length_nil] at h1
+      omega
+    rw [recordsGo_cons f' _ hne]
+    simp only [encodeItems, Framed.bytes_eq]
+    rw [readRecord_frame _ hid _ hpl]
+    simp only
+    rw [recordsGo_enc l f' (fun y hy => h y (List.mem_cons_of_mem _ hy)) (by simp at hf; omega)]
+    rfl
+
+theorem specCells_insert_raw (ctx : Ctx) (id : Nat) (p : Bytes) (l2 : List Item) :
+    ∀ (l1 : List Item) (row : Nat), specCells ctx (l1 ++ .raw id p :: l2) row = specCells ctx (l1 ++ l2) row
+  | [], _ => rfl
+  | .row r _ :: l1, _ => by simp only [List.cons_append, specCells]; exact specCells_insert_raw ctx id p l2 l1 r
+  | .raw _ _ :: l1, row => by simp only [List.cons_append, specCells]; exact specCells_insert_raw ctx id p l2 l1 row
+  | .cell c :: l1, row => by
+    simp only [List.cons_append, specCells]
+    rw [specCells_insert_raw ctx id p l2 l1 row]
 
 end Xlsb
